@@ -185,7 +185,9 @@ GET_DEPENDENCY = Contract(
     params={"self": Ref("TestNode"), "restriction": STR, "test_object": Ref("TestObject")},
     requires=["wf_map(self._setup_nodes)",
               "forall(keys_of(self._setup_nodes), lambda n: n is not None and forall(n.objects, lambda t: t is not None) "
-              "and 'name' in n.params)"],
+              "and 'name' in n.params)",
+              # the object is well formed (object_typed_params walks its composites)
+              "forall(test_object.composites, lambda c: c is not None)"],
     overrides=BRIDGE_OVERRIDES,
     extra_names={"re_search": _C.VFunc("handler", fn=lambda e, s, a, k, n: re_search(e, s, None, a, k, n), name="re_search")},
     loops={0: {"invariants": [f"forall(range(0, _i), lambda j: let(keys_of(self._setup_nodes)[j], lambda n: not {PROVIDES}))"],
